@@ -9,7 +9,7 @@ ASSUMPTIONS = [
     'linear in theta: checked away from the periodic seam (a function linear in theta is not periodic)',
 ]
 OUTSIDE = ['pairs other than the listed shapes', 'the > 10 000 element parallel clause (no-OpenMP build; see C11/C12)']
-BOUNDS = {'quick': 'fine (9,8) <- (5,4), (7,8) <- (4,4), (5,4) <- (3,2); several splits on both levels; standard and extrapolated pair',
+BOUNDS = {'quick': 'fine (9,8) <- (5,4), (7,8) <- (4,4), (5,4) <- (3,2), (7,12) <- (4,6); several splits on both levels; standard and extrapolated pair',
           'thorough': 'fine nr in {5,7,9,11}, ntheta in {4,8,12}, all admissible splits on both levels'}
 
 
@@ -17,7 +17,7 @@ def jobs(tier, seed):
     J = []
     q = tier == 'quick'
     if q:
-        shapes = [(9, 8, -1, -1), (9, 8, 4, 2), (7, 8, 3, 2), (5, 4, 2, 1), (9, 8, 6, 4)]
+        shapes = [(9, 8, -1, -1), (9, 8, 4, 2), (7, 8, 3, 2), (5, 4, 2, 1), (9, 8, 6, 4), (7, 12, 2, 2)]   # last: ntheta not a power of two (wrapThetaIndex modulo branch)
     else:
         shapes = []
         for nr in (5, 7, 9, 11):
